@@ -64,6 +64,7 @@ type ReplayFile struct {
 	Assignment  map[string]uint64 `json:"assignment"`
 	RewritePkgs []string          `json:"rewrite_pkgs"`
 	NativeEnv   bool              `json:"native_env"`
+	Fallbacks   []string          `json:"fallbacks,omitempty"` // overlay targets replaced by their fallback variant
 	Expect      struct {
 		Kind string `json:"kind"`
 		ID   string `json:"id"`
@@ -144,6 +145,26 @@ func cmdCheck(args []string) int {
 			return 2
 		}
 		eng, err := loadEngine(LoadSpec{RepoDir: *repo, Patterns: []string{g.Pkg}, Overlay: ov}, cfg)
+		if le, ok := err.(*LoadError); ok {
+			// harness files that no longer type-check against this tree and have a fallback
+			// variant (same helpers, without the unexported names that vanished): swap, retry
+			swapped := false
+			for file := range le.Files {
+				if _, has := overlayFallbacks[file]; has {
+					if rt, rerr := filepath.Rel(*repo, file); rerr == nil && !useFallbacks[rt] {
+						useFallbacks[rt] = true
+						swapped = true
+						fmt.Printf("NOTE property=%s: harness file %s does not type-check against this tree; using its fallback variant\n", prop, rt)
+					}
+				}
+			}
+			if swapped {
+				ov, _, err = buildOverlay(*repo, hdir, g.Sets, "sym")
+				if err == nil {
+					eng, err = loadEngine(LoadSpec{RepoDir: *repo, Patterns: []string{g.Pkg}, Overlay: ov}, cfg)
+				}
+			}
+		}
 		if err != nil {
 			// a tree that no longer compiles with the harness: inconclusive, never a pass
 			fmt.Printf("INCONCLUSIVE property=%s group=%d: cannot load %s with harness overlay: %v\n", prop, gi, g.Pkg, err)
@@ -245,6 +266,10 @@ func cmdCheck(args []string) int {
 			g := spec.Groups[res.groupIdx]
 			rf := ReplayFile{Property: prop, Harness: res.Harness, Package: res.Package, Sets: g.Sets, Redirects: g.Redirects,
 				Params: res.Params, Assignment: v.Assignment, RewritePkgs: g.RewritePkgs, NativeEnv: g.NativeEnv}
+			for rt := range useFallbacks {
+				rf.Fallbacks = append(rf.Fallbacks, rt)
+			}
+			sort.Strings(rf.Fallbacks)
 			rf.Expect.Kind, rf.Expect.ID, rf.Expect.Msg = v.Kind, v.ID, v.Msg
 			os.MkdirAll(replayDir, 0755)
 			rpath := filepath.Join(replayDir, sanitize(res.Harness+"-"+key)+".json")
